@@ -136,6 +136,8 @@ HasherClause(r, c) ==
                    /\ r.hashers[k].rootsig = r.hashers[l].rootsig
                    /\ r.hashers[k].layersig = r.hashers[l].layersig
                    /\ (r.hashers[k].hybrid /\ r.hashers[l].hybrid) => r.hashers[k].piecesig = r.hashers[l].piecesig
+       [] c = "C02.hashers" ->   \* every v2-capable hasher gives the BEP 52 root and piece layer
+            \A k \in DOMAIN r.hashers : r.hashers[k].status = "ok" /\ RootOK(r.hashers[k]) /\ LayerOK(r.hashers[k])
        [] c = "M10.impl" ->    \* each hasher's output is what its implementation-shaped model computes
             \A k \in DOMAIN r.hashers :
                 LET h == r.hashers[k]
@@ -167,7 +169,18 @@ SysClause(r, c) ==
               /\ (r.version = 3 => (Holds(r, "C03.order") /\ Holds(r, "C03.pieces")))
     [] OTHER -> FALSE
 
-Eval(r, c) == IF r.op = "hashers" THEN HasherClause(r, c)
+\* scaled world: the real v1 Hasher run on the universe HasherV1.tla is model-checked on (descriptors
+\* carry byte offsets of the plain stream, exactly as in HasherV1.tla)
+Hasher1Clause(r, c) ==
+  LET ref == IF r.align THEN H1!RefAligned(r.sizes, r.P, TRUE) ELSE H1!RefPlain(r.sizes, r.P)
+      Match(exp) == Len(exp) = Len(r.pieces) /\ \A j \in DOMAIN exp : exp[j] \in SeqToSet(r.pieces[j])
+  IN CASE c = "C01.scaled" -> r.status = "ok" /\ (~r.align => Match(ref))
+       [] c = "C15.scaled" -> r.status = "ok" /\ (r.align => Match(ref))
+       [] c = "M01.scaled" -> Match(H1!HasherOut(r.sizes, r.P, r.align))
+       [] OTHER -> FALSE
+
+Eval(r, c) == IF r.op = "hasher1" THEN Hasher1Clause(r, c)
+              ELSE IF r.op = "hashers" THEN HasherClause(r, c)
               ELSE IF c \in {"C09.fresh", "C09.create"} THEN SysClause(r, c)
               ELSE Holds(r, c)
 
